@@ -16,7 +16,7 @@ func main() {
 	case strings.HasPrefix(args, "version"):
 		fmt.Print("0.6.8")
 	case strings.HasPrefix(args, "ins"):
-		fmt.Print(`{"0":"stub-in"}`)
+		fmt.Print(`{"0":"stub-in","1":"stub-in-b"}`)
 	case strings.HasPrefix(args, "outs"):
 		fmt.Print(`{"0":"stub-out"}`)
 	case strings.HasPrefix(args, "in "):
